@@ -3,6 +3,7 @@ package parser
 import (
 	"encoding/xml"
 	"io"
+	"strings"
 
 	"github.com/ChrisTrenkamp/xsel/node"
 	"golang.org/x/net/html/charset"
@@ -82,6 +83,7 @@ var emptyXmlAttrs = make([]XmlAttribute, 0)
 var emptyXmlNamespaces = make([]XmlNamespace, 0)
 
 type xmlParser struct {
+	depth      int
 	xmlReader  *xml.Decoder
 	namespaces []XmlNamespace
 	nsPos      int
@@ -116,6 +118,7 @@ func (x *xmlParser) Pull() (node.Node, bool, error) {
 
 	switch n := tok.(type) {
 	case xml.StartElement:
+		x.depth++
 		x.namespaces = createXmlNamespaces(n.Attr)
 		x.attrs = createXmlAttrs(n.Attr)
 		return XmlElement{
@@ -123,6 +126,11 @@ func (x *xmlParser) Pull() (node.Node, bool, error) {
 			local: n.Name.Local,
 		}, false, nil
 	case xml.CharData:
+		if x.depth == 0 && strings.Trim(string(n), " \t\r\n") == "" {
+			// White space outside of the document element is not a text node.
+			return x.Pull()
+		}
+
 		return XmlCharData{
 			value: (string)(n),
 		}, false, nil
@@ -140,9 +148,12 @@ func (x *xmlParser) Pull() (node.Node, bool, error) {
 			target: n.Target,
 			value:  string(n.Inst),
 		}, false, nil
+	case xml.Directive:
+		return x.Pull()
 	}
 
 	//case xml.EndElement:
+	x.depth--
 	return nil, true, nil
 }
 
